@@ -26,18 +26,21 @@ mod __verif_kani {
         t
     }
 
-    //@ kind=B props=C12 bound=text_len=3_over_{LF,CR,a},2_queries fn=LineIndex::{build,to_line_column,to_offset} : for all 3^3 texts over {LF,CR,'a'} and ANY two consecutive queries (so the second runs against whatever cache the first left): both answers equal the naive scan; to_offset inverts in-bounds answers and is None past the end
+    fn model_ef_build(values: &[u32]) -> EliasFano { crate::bits::__verif_small_valid_ef(values) }
+
+    //@ kind=B props=C12 tier=thorough bound=text_len=6_over_{LF,CR,a},2_queries,EliasFano::build_replaced_by_a_valid_small_encoding fn=LineIndex::{build,to_line_column,to_offset} : for all 3^6 texts over {LF,CR,'a'} and ANY two consecutive queries (so the second runs against whatever cache the first left): both answers equal the naive scan; to_offset inverts in-bounds answers and is None past the end
     #[kani::proof]
-    #[kani::unwind(8)]
-    pub fn c12_build_and_two_queries_len3() {
-        let text: [u8; 3] = any_text::<3>();
+    #[kani::unwind(20)]
+    #[kani::stub(crate::bits::EliasFano::build, model_ef_build)]
+    pub fn c12_build_and_two_queries_len6() {
+        let text: [u8; 6] = any_text::<6>();
         let li = LineIndex::build(&text);
         let o1: usize = kani::any();
         let o2: usize = kani::any();
-        kani::assume(o1 <= 5 && o2 <= 5);
+        kani::assume(o1 <= 9 && o2 <= 9);
         assert!(li.to_line_column(o1) == naive(&text, o1));
         let (l, c) = li.to_line_column(o2);
         assert!((l, c) == naive(&text, o2));
-        if o2 < 3 { assert!(li.to_offset(l, c) == Some(o2)); } else { assert!(li.to_offset(l, c).is_none()); }
+        if o2 < 6 { assert!(li.to_offset(l, c) == Some(o2)); } else { assert!(li.to_offset(l, c).is_none()); }
     }
 }
